@@ -833,8 +833,7 @@ func ctxWiring(c *Ctx, rule string) {
 			c.bad(rule+"/receivers", shortFn(s.Caller), "receiver of dsig Validate", c.P.InstrPos(s.Instr), "a signature check outside the paths of the three inbound validators: its context is not shown to be built over sp.IDPCertificateStore / sp.Clock")
 		}
 	})
-	c.count(rule+"/receivers", m)
-	c.floor(rule+"/receivers", 1)
+	c.count(rule+"/receivers", m) // informational: a site behind an interface is met through devirtualisation on the kernel paths (floor on validate-uses)
 }
 
 func apOrNone(v Val) string {
